@@ -221,13 +221,6 @@ def _keys_loop(mp, a, b, idx, cond_extra=''):
             % (mp, idx, idx, cond_extra, a, idx, b, mp, a, idx))
 
 
-def _amp(mp):
-    """`&M` for an owned place, `M` itself when the text already is a reference-typed variable: the
-    prelude helper takes `&BTreeMap`; auto-ref/deref of `&&BTreeMap` is not available for a free fn, so
-    the rules always pass `&*M`-free `&M` and rely on deref coercion (`&&B` coerces to `&B`)."""
-    return mp
-
-
 def L_FOR(body, ctx):
     """R13: `for (A, B) in M.iter() { BODY }` over a BTreeMap ->
     `let ks_ = btree_keys_vec(&M); let mut i_ = 0; while i_ < ks_.len() { let A = &ks_[i_];
